@@ -96,7 +96,7 @@ static void reader_view(void) {        /* P2: what find() returns right now */
 		uint8_t *p = rx_find(&T, rk[j]);
 		if(p) { VP_ASSERT(p == ra[j], "reader: find() returned an address that is not the one handed out for that key");
 		        if(rp[j] || pre_present[j]) VP_ASSERT(*p == rv[j] || (cur_key_valid && rk[j] == cur_key && *p == cur_val), "reader: find() returned a value that is not (yet) fully constructed"); }
-		if(pre_present[j] && !(in_writer_op == 2 && cur_key_valid && rk[j] == cur_key)) VP_ASSERT(p != 0, "reader: a key that was present before the operation began is not found while the tree is being restructured");
+		if(pre_present[j] && !(in_writer_op == 2 && rk[j] == cur_key)) VP_ASSERT(p != 0,      /* the key being erased may already be gone */ "reader: a key that was present before the operation began is not found while the tree is being restructured");
 	}
 	if(cur_key_valid && lookup(cur_key) < 0) {          /* the key being inserted right now: null, or the constructed value */
 		uint8_t *p = rx_find(&T, cur_key);
